@@ -107,13 +107,34 @@ func encStatement(st *semantic.Statement) string {
 	}
 	var hts []string
 	for _, h := range st.HavingExpression() {
-		if !h.IsSymbol() {
-			hts = append(hts, h.Token().Type.String()+":"+hx(h.Token().Text))
+		if h.IsSymbol() {
+			continue
 		}
+		tk := h.Token()
+		parsed := "-"
+		txt := strings.TrimSpace(tk.Text)
+		switch tk.Type {
+		case lexer.ItemLiteral:
+			parsed = "bad"
+			if l, err := literal.DefaultBuilder().Parse(txt); err == nil && l != nil {
+				parsed = encLit(l)
+			}
+		case lexer.ItemNode:
+			parsed = "bad"
+			if n, err := node.Parse(txt); err == nil {
+				parsed = encNode(n)
+			}
+		case lexer.ItemTime:
+			parsed = "bad"
+			if t, err := time.Parse(time.RFC3339Nano, txt); err == nil {
+				parsed = encTimeP(&t)
+			}
+		}
+		hts = append(hts, tk.Type.String()+"~"+hx(tk.Text)+"~"+parsed)
 	}
 	lo := st.GlobalLookupOptions()
 	return fmt.Sprintf("g=%s c=%s p=%s gb=%s ob=%s hv=%s ht=%s lim=%s lo=%s hi=%s f=%s", j(gs, ","), j(cs, ";"), j(ps, ";"), j(gb, ","), j(ob, ","),
-		hv, j(hts, ","), lim, encTimeP(lo.LowerAnchor), encTimeP(lo.UpperAnchor), j(fl, ";"))
+		hv, j(hts, ";"), lim, encTimeP(lo.LowerAnchor), encTimeP(lo.UpperAnchor), j(fl, ";"))
 }
 
 // ---- result tables ----
@@ -137,7 +158,7 @@ func encCell(c *table.Cell) string {
 	return "NULL"
 }
 
-func encTable(t *table.Table, ordered bool) string {
+func encTable(t *table.Table, order table.SortConfig) string {
 	var cols []string
 	for _, b := range t.Bindings() {
 		cols = append(cols, hx(b))
@@ -150,8 +171,29 @@ func encTable(t *table.Table, ordered bool) string {
 		}
 		rows = append(rows, strings.Join(cells, "|"))
 	}
+	ordered := len(order) > 0
 	if !ordered {
 		sort.Strings(rows)
+	} else {
+		// sort.Sort is not stable: rows that compare equal under the ORDER BY keys form a tie group
+		// whose internal order is unspecified; order each group by its rendering.
+		data := t.Rows()
+		tie := func(a, b table.Row) bool {
+			for _, c := range order {
+				if x, _ := table.CompareCells(a[c.Binding], b[c.Binding]); x != 0 {
+					return false
+				}
+			}
+			return true
+		}
+		for i := 0; i < len(rows); {
+			j := i + 1
+			for j < len(rows) && tie(data[j-1], data[j]) {
+				j++
+			}
+			sort.Strings(rows[i:j])
+			i = j
+		}
 	}
 	return fmt.Sprintf("ok cols=%s rows=%s", strings.Join(cols, ","), strings.Join(rows, ";"))
 }
@@ -198,7 +240,7 @@ func runStatement(store storage.Store, text string, chanSize, bulkSize int) (res
 			r = execResult{cls: "nil-table"}
 			return
 		}
-		r = execResult{cls: "ok", text: encTable(tbl, len(st.OrderBy()) > 0)}
+		r = execResult{cls: "ok", text: encTable(tbl, st.OrderBy())}
 	}()
 	select {
 	case r := <-done:
@@ -239,7 +281,16 @@ func init() {
 		triple.NewLiteralObject(mustLit(literal.Text, "x y")), triple.NewLiteralObject(mustLit(literal.Bool, true)),
 		triple.NewLiteralObject(mustLit(literal.Float64, 1.5)),
 		triple.NewPredicateObject(mustImm("p")), triple.NewPredicateObject(mustTmp("p", qt0)), triple.NewPredicateObject(mustTmp("q", qt1)))
+	for _, v := range []int64{-2, -1, 10, 11} {
+		qNums = append(qNums, triple.NewLiteralObject(mustLit(literal.Int64, v)))
+	}
+	for _, v := range []float64{0.25, -2, 2.5} {
+		qNums = append(qNums, triple.NewLiteralObject(mustLit(literal.Float64, v)))
+	}
+	qNums = append(qNums, qObjs[4], qObjs[5], qObjs[6], qObjs[10])
 }
+
+var qNums []*triple.Object
 
 var qBindings = []string{"?a", "?b", "?c", "?d", "?e"}
 
@@ -481,6 +532,75 @@ func (q *qgen) queryText(graphs []string) string {
 		proj = []string{"?a"}
 	}
 	text := fmt.Sprintf("select %s from %s where { %s }", strings.Join(proj, ", "), strings.Join(graphs, ", "), where)
+	outs := func() []string {
+		var o []string
+		for _, p := range proj {
+			f := strings.Fields(p)
+			o = append(o, f[len(f)-1])
+		}
+		return o
+	}()
+	if len(bs) > 0 && (q.mode == "group" || (q.mode == "having" && r.chance(1, 2))) {
+		// one or two grouping keys, aggregates over the other bindings
+		nk := 1 + r.intn(2)
+		if nk > len(bs) {
+			nk = len(bs)
+		}
+		var keys, sel []string
+		for i, b := range bs {
+			switch {
+			case i < nk:
+				name := b
+				if r.chance(1, 5) {
+					name = b + "k"
+					sel = append(sel, b+" as "+name)
+				} else {
+					sel = append(sel, b)
+				}
+				keys = append(keys, name)
+			default:
+				switch r.intn(4) {
+				case 0:
+					sel = append(sel, fmt.Sprintf("count(%s) as %sc", b, b))
+				case 1:
+					sel = append(sel, fmt.Sprintf("count(distinct %s) as %sd", b, b))
+				case 2:
+					sel = append(sel, fmt.Sprintf("sum(%s) as %ss", b, b))
+				default:
+					sel = append(sel, fmt.Sprintf("count(%s) as %sc", b, b))
+				}
+			}
+		}
+		text = fmt.Sprintf("select %s from %s where { %s } group by %s", strings.Join(sel, ", "), strings.Join(graphs, ", "), where, strings.Join(keys, ", "))
+		outs = nil
+		for _, p := range sel {
+			f := strings.Fields(p)
+			outs = append(outs, f[len(f)-1])
+		}
+	}
+	if q.mode == "order" || ((q.mode == "group" || q.mode == "having") && r.chance(1, 4)) {
+		var ks []string
+		dir := map[string]string{}
+		for i := 0; i < 1+r.intn(3); i++ {
+			k := outs[r.intn(len(outs))]
+			d, seen := dir[k]
+			if !seen {
+				d = []string{" asc", " desc", ""}[r.intn(3)]
+				dir[k] = d
+			} else if d == "" && r.chance(1, 2) {
+				d = " asc" // same direction written differently
+			}
+			if r.chance(1, 10) {
+				d = []string{" asc", " desc"}[r.intn(2)] // may contradict an earlier direction: rejected
+			}
+			ks = append(ks, k+d)
+		}
+		text += " order by " + strings.Join(ks, ", ")
+	}
+	if q.mode == "having" {
+		text += " having " + q.havingExpr(outs, 0)
+	}
+	// the global time bound comes after HAVING and before LIMIT
 	switch r.intn(12) {
 	case 0:
 		text += " before " + fmtT(qt1)
@@ -495,9 +615,51 @@ func (q *qgen) queryText(graphs []string) string {
 	return text + ";"
 }
 
+// havingExpr: nested parenthesised AND/OR/NOT over comparisons with every operand kind.
+func (q *qgen) havingExpr(outs []string, depth int) string {
+	r := q.r
+	cmp := func() string {
+		b := outs[r.intn(len(outs))]
+		op := []string{"=", "<", ">"}[r.intn(3)]
+		switch r.intn(9) {
+		case 0:
+			return fmt.Sprintf("%s %s %s", b, op, outs[r.intn(len(outs))])
+		case 1, 2:
+			return fmt.Sprintf(`%s %s "%d"^^type:int64`, b, op, []int{-2, -1, 0, 1, 2, 10}[r.intn(6)])
+		case 3:
+			return fmt.Sprintf(`%s %s "%s"^^type:float64`, b, op, []string{"-2", "0.25", "1.5", "2.5"}[r.intn(4)])
+		case 4:
+			return fmt.Sprintf(`%s %s "%s"^^type:text`, b, op, []string{"a", "a!", "x y", "/u"}[r.intn(4)])
+		case 5:
+			return fmt.Sprintf("%s = %s", b, qNodes[r.intn(len(qNodes))])
+		case 6:
+			return fmt.Sprintf("%s %s %s", b, op, fmtT([]time.Time{qt0, qt1, qt2}[r.intn(3)]))
+		case 7:
+			return fmt.Sprintf("%s = %s", b, qPreds[r.intn(len(qPreds))])
+		default:
+			return fmt.Sprintf(`%s %s "true"^^type:bool`, b, op)
+		}
+	}
+	if depth >= 3 {
+		return cmp()
+	}
+	switch r.intn(6) {
+	case 0:
+		return "not " + q.havingExpr(outs, depth+1)
+	case 1:
+		return "(" + q.havingExpr(outs, depth+1) + ") and " + q.havingExpr(outs, depth+1)
+	case 2:
+		return "(" + q.havingExpr(outs, depth+1) + ") or " + q.havingExpr(outs, depth+1)
+	case 3:
+		return "(" + q.havingExpr(outs, depth+1) + ")"
+	default:
+		return cmp()
+	}
+}
+
 func cmdQuery(args []string) error {
 	fs := flag.NewFlagSet("query", flag.ContinueOnError)
-	mode := fs.String("mode", "plain", "plain | optional | limit")
+	mode := fs.String("mode", "plain", "plain | optional | limit | order | group | having")
 	n := fs.Int("n", 300, "number of (store, queries) scenarios")
 	per := fs.Int("per", 10, "queries per scenario")
 	opsPath := fs.String("ops", "", "")
@@ -522,7 +684,11 @@ func cmdQuery(args []string) error {
 		nt := 3 + r.intn(18)
 		seen := map[string]bool{}
 		for tries := 0; len(g.uni) < nt && tries < 200; tries++ {
-			t, _ := triple.New(qNodes[r.intn(len(qNodes))], qPreds[r.intn(len(qPreds))], qObjs[r.intn(len(qObjs))])
+			objs := qObjs
+			if (*mode == "group" || *mode == "having" || *mode == "order") && r.chance(1, 2) {
+				objs = qNums
+			}
+			t, _ := triple.New(qNodes[r.intn(len(qNodes))], qPreds[r.intn(len(qPreds))], objs[r.intn(len(objs))])
 			if seen[t.String()] {
 				continue
 			}
